@@ -5,6 +5,13 @@ attributes with Required/Optional/unique/index/nullable/composite_key/composite_
 self-references and symmetric ones, inheritance with discriminators, explicit _table_/column(s)/table/reverse_column(s)/
 index/fk_name names, long / mixed-case / near-identical names, names with spaces and quotes).
 
+Pony may refuse a diagram with its own diagnostics (OrmError subclasses, TypeError, ValueError, NotImplementedError: counted as
+rejected); an internal error escaping class creation / generate_mapping (AssertionError, KeyError, ...) is a violation: the
+declaration was neither mapped nor rejected.  Names the declarations spell out (_table_, column(s)=, table=,
+reverse_column(s)=, index= / fk_name= of to-one attributes) must be used exactly as declared: the catalog is looked up under the
+DECLARED name, so a silently renamed table or column is a violation, and a declared link table that is already taken must be
+rejected.
+
 SQLite (live): generate_mapping(create_tables=True) on a fresh file must succeed once Pony accepted the declarations,
 PRAGMA table_info/index_list/index_info/foreign_key_list must show exactly the structure the reference derives from the
 spec (vlib.c26_model.Reference: column counts, nullability, primary key, unique constraints, indexes, foreign keys, ON
@@ -29,7 +36,11 @@ RULE = ('A case is (dialect in sqlite/postgres/mysql/oracle, entity-diagram spec
         'enforce; about 1 in 6 allows colliding names on purpose). Evaluated = materialised with type(name,(db.Entity,),attrs) '
         'and either rejected by Pony (counted in rejected_by_pony) or judged by the oracle. Non-trivial = accepted by Pony AND '
         'the spec has a relationship, a composite key/index/pk, inheritance, an explicit name or a name within 6 characters of '
-        'the dialect limit or beyond it. Distinct = distinct canonical JSON of (dialect, spec).')
+        'the dialect limit or beyond it. Distinct = distinct canonical JSON of (dialect, spec). A third of the explicit many-to-many '
+        'table= names are already taken in the schema on purpose (must be rejected, never renamed); entities with multi-column '
+        'primary keys (composite, or one reference to a composite pk) are preferred as ends of many-to-many relationships. '
+        'An internal error (AssertionError, KeyError, IndexError, AttributeError, RecursionError ...) escaping class creation or '
+        'generate_mapping is a violation, not a rejection.')
 ASSUMPTIONS = ['SQLite 3.40 catalog PRAGMAs (table_info, index_list, index_info, foreign_key_list) report the created schema faithfully',
                'the reference rules in vlib/c26_model.py (Reference.holds_columns / notnull / pk_width) transcribe the documented mapping '
                'rules; optional Json/Array defaults, optional strings that are unique or in an index, ON DELETE without an explicit '
@@ -53,13 +64,39 @@ class Rejected(Exception):
         self.exc = exc
 
 
+class Crashed(Exception):
+    """Pony neither mapped the declarations nor refused them with a diagnostic: an internal error escaped"""
+    def __init__(self, stage, exc):
+        import traceback as _tb
+        frames = _tb.extract_tb(exc.__traceback__)
+        where = ''
+        for fr in reversed(frames):
+            if os.sep + 'pony' + os.sep in fr.filename:
+                where = ' at pony/%s:%d in %s (%s)' % (fr.filename.split(os.sep + 'pony' + os.sep)[-1], fr.lineno, fr.name, (fr.line or '').strip())
+                break
+        self.stage = stage
+        self.exc = exc
+        self.message = ('%s neither mapped the declarations nor rejected them with a diagnostic: %s%s%s'
+                        % (stage, type(exc).__name__, (': %s' % exc) if str(exc) else ' (no message)', where))
+        Exception.__init__(self, self.message)
+
+
+# exception types Pony's mapping code never raises on purpose (checked: throw(...) in core.py/dbschema.py/dbapiprovider.py uses
+# OrmError subclasses, TypeError, ValueError, NotImplementedError; the only deliberate AttributeError needs attribute NAMES given
+# to composite_key(), which the generator never does).  One of these escaping generate_mapping()/class creation is a crash.
+CRASH_TYPES = (AssertionError, KeyError, IndexError, AttributeError, RecursionError, NameError, UnboundLocalError, ZeroDivisionError)
+
+
 def _classify(stage, e):
-    """a refusal by Pony (its own diagnostics) is a rejection; a database error after Pony accepted is not"""
+    """a refusal by Pony (its own diagnostics) is a rejection; an internal error is a crash (raised as Crashed);
+    a database error after Pony accepted is neither (-> None)"""
     from pony.orm.dbapiprovider import DBException
     if isinstance(e, AssertionError) and 'generator bug' in str(e):
         raise e
     if isinstance(e, DBException):
         return None
+    if isinstance(e, CRASH_TYPES):
+        raise Crashed(stage, e)
     return Rejected(stage, e)
 
 
@@ -116,6 +153,42 @@ def features(case):
                 f.add('has:index')
             if 'cascade_delete' in o:
                 f.add('has:cascade_delete')
+    # many-to-many shapes worth counting: a declared link-table name that is already taken, and link-table halves that
+    # span several columns with default names (esp. when the owner's pk is ONE reference to a multi-column pk)
+    ref = M.Reference(spec, case['dialect'])
+    taken = {}
+    for e in spec['entities']:
+        if isinstance(e['table'], str):
+            taken[e['table']] = taken.get(e['table'], 0) + 1
+        elif e['table'] is None and not e['bases']:
+            for guess in (e['name'], e['name'].lower(), e['name'].upper()):
+                taken.setdefault(guess, 1)
+    link = {}
+    for e in spec['entities']:
+        for a in e['attrs']:
+            if a['cls'] != 'Set':
+                continue
+            try:
+                rn, r = ref.reverse_of(e['name'], a)
+            except AssertionError:
+                continue
+            if r['cls'] != 'Set':
+                continue
+            f.add('has:m2m')
+            t = a['opts'].get('table')
+            if isinstance(t, str):
+                key = tuple(sorted([(e['name'], a['name']), (rn, r['name'])]))
+                link.setdefault(t, set()).add(key)
+            w = ref.pk_width(e['name'])
+            other_names_my_side = r['opts'].get('columns') or r['opts'].get('column') or (r is a and (a['opts'].get('columns') or a['opts'].get('column')))
+            if w > 1 and not other_names_my_side:
+                f.add('has:m2m-wide-default-columns')
+                pk = ref.pk_attrs(ref.root(e['name']))
+                if len(pk) == 1 and pk[0][1] is not None and pk[0][1]['type'].startswith('E:'):
+                    f.add('has:m2m-on-single-reference-wide-pk')
+    for t, rels in link.items():
+        if t in taken or len(rels) > 1:
+            f.add('has:link-table-name-taken')
     if any(len(n) >= limit - 6 for n in names):
         f.add('has:long-name')
     if any(not n.replace('_', 'a').isalnum() for n in names):
@@ -124,13 +197,16 @@ def features(case):
 
 
 def run_case(case, workdir):
-    """-> (status, violations, info): status 'accepted' / 'rejected'; violations = [(tag, message)]"""
+    """-> (status, violations, info): status 'accepted' / 'crashed'; violations = [(tag, message)]; raises Rejected"""
     dialect = case['dialect']
     spec = case['spec']
     ref = M.Reference(spec, dialect)
-    if dialect == 'sqlite':
-        return _run_sqlite(ref, spec, workdir)
-    return _run_ddl(ref, spec, dialect)
+    try:
+        if dialect == 'sqlite':
+            return _run_sqlite(ref, spec, workdir)
+        return _run_ddl(ref, spec, dialect)
+    except Crashed as c:
+        return 'crashed', [('mapping:internal-error', c.message)], {}
 
 
 def _define(spec, db):
@@ -292,18 +368,14 @@ def run(ctx):
         except Rejected as r:
             ctx.rejected += 1
             kind = type(r.exc).__name__
-            internal = isinstance(r.exc, (AssertionError, KeyError, IndexError, AttributeError, RecursionError))
-            ctx.case(key=case, nontrivial=False,
-                     classes=classes + ['rejected', 'rejected:%s:%s' % (r.stage, kind)] + (['rejected:internal-error'] if internal else []))
-            if internal and len(ctx.extra.setdefault('internal_error_samples', [])) < 3:
-                ctx.extra['internal_error_samples'].append({'case': case, 'error': str(r)[:300]})
+            ctx.case(key=case, nontrivial=False, classes=classes + ['rejected', 'rejected:%s:%s' % (r.stage, kind)])
             return
         nontrivial = bool(f & {'has:relationship', 'has:composite-pk', 'has:composite-key', 'has:composite-index',
                                'has:inheritance', 'has:explicit-name', 'has:long-name'})
         sample = None
         if nontrivial and len(ctx.samples) < 6:
             sample = {'dialect': case['dialect'], 'entities': [_describe(e) for e in case['spec']['entities']]}
-        ctx.case(key=case, nontrivial=nontrivial, classes=classes + ['accepted'] + (['inserted'] if info.get('inserted') else []),
+        ctx.case(key=case, nontrivial=nontrivial, classes=classes + [status] + (['inserted'] if info.get('inserted') else []),
                  sample=sample)
         for tag, message in vio:
             ctx.fail(case, _msg(tag, message, case['dialect']))
@@ -482,7 +554,28 @@ def _is_default_schema_qualified_duplicate(case, message):
     return False
 
 
+def _is_fk_name_ignored(case, message):
+    """open finding C26-fk-name-ignored: generate_mapping names the foreign key of a to-one attribute after attr.reverse.fk_name
+    (core.py, "table.add_foreign_key(attr.reverse.fk_name, ...)") although Attribute.linked() forbids fk_name on the Set end and
+    tells the user to put it on the to-one attribute: fk_name= on a Required/Optional relationship attribute is silently ignored
+    and the constraint gets the default name."""
+    tag, dialect = _tag(message)
+    return tag == 'explicit-name:fk'
+
+
+def _is_link_table_name_of_later_entity(case, message):
+    """open finding C26-link-table-name-of-later-entity: an explicit many-to-many table= name equal to the table name of an entity
+    that generate_mapping processes AFTER the relationship is not reported as 'Table name ... is already in use' (that test only
+    sees tables added earlier): the entity is then pushed onto the link table through Table.add_entity(), which dies with a bare
+    AssertionError (assert '_table_options_' not in entity.__dict__)."""
+    tag, dialect = _tag(message)
+    return (tag == 'mapping:internal-error' and 'in add_entity' in message and '_table_options_' in message
+            and 'has:link-table-name-taken' in features(case))
+
+
 EXCLUSIONS = {
+    'fk_name_ignored': _is_fk_name_ignored,
+    'link_table_name_of_later_entity': _is_link_table_name_of_later_entity,
     'default_schema_qualified_duplicate': _is_default_schema_qualified_duplicate,
     'names_differ_only_by_case': _is_names_differ_only_by_case,
     'oracle_qualified_sequence_name': _is_oracle_qualified_sequence_name,
